@@ -79,6 +79,9 @@ def gen_case(rng, plausible=True, malformed=False):
     acts = [[0] + [[3, f, rng.choice([0, 5])] for f in first]]
     if malformed and rng.random() < 0.2:
         acts = [[0]]
+    if malformed and rng.random() < 0.15:
+        # replace_screen() with nothing scheduled: ScreenStackEmptyException out of the top-level call
+        acts = [[0, [2, rng.randrange(n), 0]]] + (acts if rng.random() < 0.5 else [])
     acts.append([1])
     nl = rng.randrange(2, 16)
     typed = []
